@@ -34,13 +34,21 @@ def scene_for(chk, MX, multi, wind):
     return sd, acs
 
 
+# the exports (files go to the replay directory and are overwritten)
+EXPORTS = {
+    "export_stl": lambda sc, n: sc.export_stl(filename=common.os.path.join(common.REPLAYS, "c08_export.stl"), section_resolution=6),
+    "export_vtk": lambda sc, n: sc.export_vtk(filename=common.os.path.join(common.REPLAYS, "c08_export.vtk"), section_resolution=6),
+    "export_pylot_model": lambda sc, n: sc.export_pylot_model(filename=common.os.path.join(common.REPLAYS, "c08_pylot.json")),
+}
+
+
 def side_effect_sweep(chk, MX, n):
     rng = chk.rng
-    names = list(api.ANALYSES)
+    names = list(api.ANALYSES) + list(EXPORTS)
     done = 0
     while done < n:
         an = names[done % len(names)]
-        multi = (an in api.MULTI_PREFERRED and rng.random() < 0.8) or (rng.random() < 0.3 and an not in api.SINGLE_ONLY)
+        multi = (an in api.MULTI_PREFERRED and rng.random() < 0.8) or (rng.random() < 0.3 and an not in api.SINGLE_ONLY and an != "export_pylot_model")
         wind = rng.random() < 0.6
         sd, acs = scene_for(chk, MX, multi, wind)
         done += 1
@@ -53,7 +61,7 @@ def side_effect_sweep(chk, MX, n):
         before = snapshot(sc)
         target = rng.choice(list(sc._airplanes))
         try:
-            api.ANALYSES[an](sc, target)
+            (api.ANALYSES.get(an) or EXPORTS[an])(sc, target)
         except Exception as e:
             if type(e).__name__ in ("MaxIterationError", "SolverNotConvergedError"):
                 chk.count("analysis_nonconverged=" + an)
